@@ -379,7 +379,7 @@ async fn exec_point(n1: usize) {
     }
 }
 
-pub async fn run_node<C: Config>(ctx: &Ctx, engine: &TrackedEngine<C>, n: usize) -> i64 {
+pub async fn run_node<C: Config>(ctx: &Arc<Ctx>, engine: &TrackedEngine<C>, n: usize) -> i64 {
     let x = ctx.rec.exec_seq.fetch_add(1, Ordering::SeqCst);
     ctx.rec.push(Event::Enter { n: n + 1, x });
     let mut guard = ExecGuard { ctx, n, x, reads: Mutex::new(Vec::new()), done: false };
@@ -402,6 +402,30 @@ pub async fn run_node<C: Config>(ctx: &Ctx, engine: &TrackedEngine<C>, n: usize)
             match it.mode {
                 1 => {
                     let vs = join_all(it.deps.iter().map(|d| dep_read(ctx, engine, n, x, *d))).await;
+                    for (i, (d, v)) in it.deps.iter().zip(vs).enumerate() {
+                        guard.reads.lock().push((*d, v));
+                        acc = ctx.prog.step(it, i, acc, v);
+                    }
+                }
+                3 => {
+                    // every dependency is requested by its own spawned task (a clone of the tracked
+                    // engine each): the reads go on when this executor is unwound
+                    let hs: Vec<_> = it
+                        .deps
+                        .iter()
+                        .map(|d| {
+                            let (c2, e2, d2) = (ctx.clone(), engine.clone(), *d);
+                            tokio::spawn(async move { dep_read(&c2, &e2, n, x, d2).await })
+                        })
+                        .collect();
+                    let mut vs = Vec::new();
+                    for h in hs {
+                        match h.await {
+                            Ok(v) => vs.push(v),
+                            // the spawned read was unwound by the engine's cycle payload: pass it on
+                            Err(e) => std::panic::resume_unwind(e.into_panic()),
+                        }
+                    }
                     for (i, (d, v)) in it.deps.iter().zip(vs).enumerate() {
                         guard.reads.lock().push((*d, v));
                         acc = ctx.prog.step(it, i, acc, v);
